@@ -50,7 +50,7 @@ class C07(Property):
     ]
     design_ref = "DESIGN.md section 5 / C07"
     shards = 16
-    theorems_note = ("lock_discipline_orders (any two conflicting accesses made inside critical sections of the location's reader/writer "
+    theorems_note = ("write_locks_exclusive (in every reachable state of the machine no slot is write-locked twice: the locks held across steps by race losers and by the teardown exclude each other), user_state_needs_thread_safe_types / views_need_shareable_resolvers (from the Send/Sync bounds in the current source), lock_discipline_orders (any two conflicting accesses made inside critical sections of the location's reader/writer "
                      "lock are ordered by happens-before, given the lock's mutual exclusion), teardown_after_uses (with release decrements "
                      "and an acquiring final decrement, everything a thread did before giving up its handle happens-before the teardown), "
                      "machine_accesses_under_lock (in every reachable state of the concurrent machine every step requests slot contents "
